@@ -145,7 +145,7 @@ func ConnectWithConfig(c *ConnConfig) (*Conn, error) {
 			go func() {
 				conn.state.WaitUntil(ctx, connStatusClosed)
 				cancel()
-				conn.eventDispatcher.cond.Broadcast()
+				conn.eventDispatcher.wake()
 			}()
 			go func() {
 				conn.eventDispatcher.dispatchLoop(ctx)
@@ -367,9 +367,7 @@ func (c *Conn) OpenUpstream(ctx context.Context, sessionID string, opts ...Upstr
 		go func() {
 			u.eventDispatcher.dispatchLoop(ctx)
 		}()
-		context.AfterFunc(ctx, func() {
-			u.eventDispatcher.cond.Broadcast()
-		})
+		context.AfterFunc(ctx, u.eventDispatcher.wake)
 		var isResume bool
 		for {
 			if err := u.run(isResume); err != nil {
@@ -525,9 +523,7 @@ func (c *Conn) OpenDownstream(ctx context.Context, filters []*message.Downstream
 		go func() {
 			down.eventDispatcher.dispatchLoop(ctx)
 		}()
-		context.AfterFunc(ctx, func() {
-			down.eventDispatcher.cond.Broadcast()
-		})
+		context.AfterFunc(ctx, down.eventDispatcher.wake)
 
 		for {
 			if err := down.run(); err != nil {
